@@ -600,7 +600,13 @@ def resubmit_under_short_read(ctx):
     m, t = ctx.model, ctx.t
     if ctx.disk is None or not m.pages:
         return
-    p = sample(ctx, m.pages, 1)[0]
+    # a page whose re-submission writes nothing at all: it is known and already covered by a
+    # webentity at least as long as anything the rules propose (otherwise re-submitting it
+    # legitimately creates a webentity, e.g. after its webentity was deleted)
+    quiet = [l for l in sample(ctx, m.pages, 6) if m.E(l) is not None and m.potential(l) == m.E(l)]
+    if not quiet:
+        return
+    p = quiet[0]
     a0, b0 = ctx.sut.stores()
     ctx.disk.short_read_in = ctx.obs_rng.randint(1, 2 * len(stems(p)) + 2)
     outcome = "returned"
